@@ -190,6 +190,17 @@ def run(ctx):
             if got and not lit:
                 ctx.counterexample('NODOTDIR: %r matches %r although the `.`/`..` segment is not written literally' % (pat, name),
                                    {'name': name, 'pattern': pat, 'flags': 'NODOTDIR|DOTGLOB|EXTGLOB'})
+            # a literal `.`/`..` segment stays literal however the separators around it are spelled
+            for pat2 in common.separator_respellings(pat, rng, k=2):
+                if pat2.endswith('\\') and not pat.endswith('\\'):
+                    continue
+                n += 1
+                for fl2 in (Gm.NODOTDIR | Gm.DOTGLOB | Gm.EXTGLOB | Gm.FORCEUNIX, Gm.NODOTDIR | Gm.FORCEUNIX, Gm.NODOTDIR | Gm.GLOBSTAR | Gm.FORCEUNIX):
+                    g1, g2 = Gm.globmatch(name, pat, flags=fl2), Gm.globmatch(name, pat2, flags=fl2)
+                    if g1 != g2:
+                        ctx.counterexample('NODOTDIR: globmatch(%r, %r, %s) = %r but with the separators respelled (%r) it is %r' % (name, pat, corr.flag_names(fl2), g1, pat2, g2),
+                                           {'name': name, 'pattern': pat2, 'same_as': pat, 'flags': corr.flag_names(fl2)})
+                        break
     # ... and the pathlib front end hands NODOTDIR on (it keeps `..` segments; `.` segments are normalised away)
     from wcmatch import pathlib as PLm
     for name in ('..', 'a/..', '../a', 'a/../b', '../..'):
